@@ -318,3 +318,7 @@ w("C13", "SeriesSchema strategy ignores the index again", "pandera/api/pandas/ar
   "        if index is not None:\n            strategy = st.set_pandas_index(strategy, index)\n        return strategy\n", "        return strategy\n")
 w("C02", "SeriesSchema value validation unfenced again (index errors lost in lazy mode)", "pandera/api/pandas/array.py",
   "        except errors.SchemaErrors as exc:\n            if self.index is None:\n                raise\n", "        except errors.SchemaInitError as exc:\n            if self.index is None:\n                raise\n")
+w("C12", "column labels hand-quoted in the generated script again", "pandera/io/pandas_io.py",
+  "    column_str = \", \".join(f\"{k!r}: {v}\" for k, v in columns.items())", "    column_str = \", \".join(f\"'{k}': {v}\" for k, v in columns.items())")
+w("C12", "index name hand-quoted again", "pandera/io/pandas_io.py",
+  "            name=repr(properties[\"name\"]),", "            name=(\"None\" if properties[\"name\"] is None else f\"\\\"{properties['name']}\\\"\"),")
